@@ -90,12 +90,15 @@ static void api_one(const char* tn, const std::string& start, uint8_t op, const 
     viol(std::string("api/") + op_name(op) + ":" + d + ":" + tn, std::string(tn) + " parse(\"" + show(start) + "\")." + op_name(op) + "(\"" + show(val) + "\"): ada href=\"" + show(o.href) + "\" model href=\"" + show(refurl::href(*r)) + "\"", w, val.size());
 }
 template <class U>
-static void api_parse(const char* tn, const std::string& input) {
+static void api_parse(const char* tn, const std::string& input, const std::string& base = "") {
   R.evaluations++;
-  std::string w = JObj().str("kind", "encode").str("prop", "C11").str("sub", "parse").str("type", tn).hexs("data", input).str("data_show", show(input)).done();
+  std::string w = JObj().str("kind", "encode").str("prop", "C11").str("sub", "parse").str("type", tn).hexs("data", input).str("data_show", show(input)).hexs("base", base).done();
   set_case(w);
-  auto u = ada::parse<U>(input);
-  auto r = refurl::parse(input);
+  ada::result<U> bu = tl::unexpected(ada::errors::type_error);
+  std::optional<refurl::Url> br;
+  if (!base.empty()) { bu = ada::parse<U>(base); br = refurl::parse(base); if (!bu || !br) return; }
+  auto u = base.empty() ? ada::parse<U>(input) : ada::parse<U>(input, &*bu);
+  auto r = base.empty() ? refurl::parse(input) : refurl::parse(input, &*br);
   Obs o = observe(u);
   std::string d = refbind::diff(o, r, 0);
   if (o.ok) { R.nontrivial++; R.outcome(hash64(o.href)); }
@@ -118,7 +121,7 @@ int main(int argc, char** argv) {
       std::string start = unhex(json_get_str(doc, "start")), opn = json_get_str(doc, "op");
       uint8_t op = 0; for (uint8_t i = 0; i < OP_COUNT; i++) if (opn == op_name(i)) op = i;
       if (type == "url") api_one<ada::url>("url", start, op, data); else api_one<ada::url_aggregator>("aggregator", start, op, data);
-    } else if (sub == "parse") { if (type == "url") api_parse<ada::url>("url", data); else api_parse<ada::url_aggregator>("aggregator", data); }
+    } else if (sub == "parse") { std::string rb = unhex(json_get_str(doc, "base")); if (type == "url") api_parse<ada::url>("url", data, rb); else api_parse<ada::url_aggregator>("aggregator", data, rb); }
     else if (sub == "roundtrip") {
       for (auto& sd : S) if (setn == sd.name) {
         std::string e = ada::unicode::percent_encode(data, sd.table); std::string d = ada::unicode::percent_decode(e, e.find('%'));
@@ -182,6 +185,20 @@ int main(int argc, char** argv) {
         std::string in = tp.first + std::string(p, 'a') + f + tp.second;
         api_parse<ada::url>("url", in); api_parse<ada::url_aggregator>("aggregator", in); nb++;
       }
+  // the same templates against a base: the encode set of a component is chosen by the RESULT's scheme class, never by the
+  // base's (absolute inputs against a base of the other class; relative inputs inherit the base's class)
+  {
+    const std::vector<std::string> cbases = {"http://b/x/y?bq#bf", "foo://b/x/y?bq#bf", "file:///x/y", "foo:/x/y"};
+    std::vector<std::pair<std::string, std::string>> rtempl = ptempl;
+    for (auto& t : std::vector<std::pair<std::string, std::string>>{{"p", "/q"}, {"?q", ""}, {"#f", ""}, {"//u", "@h/"}, {"/p", "?q"}, {"?", "'"}, {"//h/?", "'"}}) rtempl.push_back(t);
+    for (auto& cb : cbases)
+      for (auto& tp : rtempl)
+        for (auto& f : fill) {
+          if (int(ord++ % ns) != sh) continue;
+          std::string in = tp.first + f + tp.second;
+          api_parse<ada::url>("url", in, cb); api_parse<ada::url_aggregator>("aggregator", in, cb); nb++;
+        }
+  }
   // url_search_params::to_string for every byte value (byte-string API)
   if (sh == 0)
     for (int b = 0; b < 256; b++) {
